@@ -467,6 +467,16 @@ Section INV.
       destruct e1 as [|f t]; simpl in *; auto.
       destruct (nlookup (fstore f) n) as [[w|up m]|]; simpl; auto.
     - simpl. auto.
+    - simpl. destruct (negb (length e =? 1)); simpl; auto.
+      destruct (is_int v0 && reg_bound c n); simpl; auto.
+      destruct (create_or_set_inv (empty_frame :: e) n v0 true (Inv_push e HI)) as (H1 & L1 & _).
+      destruct (create_or_set c (empty_frame :: e) n v0 true) as [e1 r1]. simpl in *.
+      assert (Hpop : Inv (tl e1) /\ length (tl e1) = length e).
+      { destruct e1 as [|f t]; simpl in *; [lia|]. split; [|lia].
+        eapply Inv_pop; eauto. intros ->. simpl in L1. pose proof (Inv_nonempty e HI). destruct e; simpl in *; [contradiction|lia]. }
+      destruct r1; try (destruct e1; simpl in *; auto; fail).
+      destruct e1 as [|f t]; simpl in *; auto.
+      destruct (nlookup (fstore f) n) as [[w|up m]|]; simpl; auto.
     - simpl. destruct (read_name_inv e g HI) as (H1 & L1 & _).
       destruct (read_name e g) as [e1 [[| | | | | | |]| | |]]; simpl in *; auto.
   Qed.
@@ -554,12 +564,56 @@ Section INV.
       destruct (read_name_inv e n HI) as (H1 & L1 & _). auto.
   Qed.
 
-  Definition event_deletes (ev : event) : bool := match ev with Ev _ a => attempt_deletes a end.
+  Definition event_deletes (ev : event) : bool := match ev with Ev _ a => attempt_deletes a | EvClo _ _ => false end.
+
+  Lemma GoodKs_last : forall l, GoodKs l -> nth_error l (length l - 1) = Some (Some (OVal v)).
+  Proof.
+    induction 1; simpl; auto.
+    destruct t; [exfalso; eapply GoodKs_nonempty; eauto|].
+    simpl in *. rewrite Nat.sub_0_r in *. auto.
+  Qed.
+
+  Lemma inner_no_delete : forall n i, attempt_deletes (inner_attempt n i) = false.
+  Proof. destruct i; reflexivity. Qed.
+
+  Lemma run_closure_inv : forall e g i, Inv e ->
+    Inv (fst (run_closure c e g i)) /\ length (fst (run_closure c e g i)) = length e.
+  Proof.
+    intros e g i HI. unfold run_closure.
+    destruct (read_name_inv e g HI) as (H1 & L1 & _).
+    destruct (read_name e g) as [e1 r1]. simpl in *.
+    destruct r1 as [[| | | | | |ct ci n w|ct ci n]| | |]; simpl; auto.
+    destruct (negb (constant_name n)); simpl; auto.
+    destruct (root_frame e1) as [f|] eqn:ER; simpl; auto.
+    set (below := match nlookup (fstore f) n with
+                  | Some (OVal x) => cval_eqb true x w
+                  | Some (ORef _ _) => false
+                  | None => true
+                  end).
+    destruct below eqn:EB; simpl; auto.
+    assert (HI2 : Inv (empty_frame :: mkframe [(n, OVal w)] :: e1)).
+    { apply Inv_push. destruct H1 as [HG HS]. split.
+      - simpl. apply GoodKs_push; auto. unfold klook at 1. simpl.
+        destruct (name_eqb n K) eqn:EN; simpl; auto.
+        apply name_eqb_eq in EN. subst n.
+        pose proof (GoodKs_last _ HG) as HL. rewrite map_length in HL.
+        unfold root_frame in ER. rewrite nth_error_map, ER in HL. simpl in HL. inversion HL as [HK].
+        unfold klook in HK. unfold below in EB. rewrite HK in EB. apply cval_eqb_eq in EB. auto.
+      - constructor; auto. intros n' up m Hin. simpl in Hin. destruct Hin as [Hin|[]]. discriminate. }
+    destruct (do_attempt_inv (inner_attempt n i) _ (inner_no_delete n i) HI2) as (H2 & L2).
+    destruct (do_attempt c (empty_frame :: mkframe [(n, OVal w)] :: e1) (inner_attempt n i)) as [e2 r2]. simpl in *.
+    pose proof (Inv_nonempty e HI) as Hne.
+    assert (Hpos : 0 < length e) by (destruct e; simpl; [contradiction|lia]).
+    destruct e2 as [|a1 [|a2 t]]; simpl in *; try lia.
+    split; [|lia].
+    assert (Ht : t <> []) by (intros ->; simpl in L2; lia).
+    eapply Inv_pop; [eapply Inv_pop; [exact H2|discriminate]|exact Ht].
+  Qed.
 
   Lemma run_event_inv : forall ev e, event_deletes ev = false -> Inv e ->
     Inv (fst (run_event c e ev)) /\ length (fst (run_event c e ev)) = length e.
   Proof.
-    intros [s a] e Hd HI. simpl in Hd.
+    intros [s a|g i] e Hd HI; [|simpl; destruct (length e =? 1); [apply run_closure_inv; auto|simpl; auto]]. simpl in Hd.
     assert (Hpop : forall e2 k, Inv e2 -> length e2 = k + length e -> k <= 2 ->
               Inv (Nat.iter k (@tl frame) e2) /\ length (Nat.iter k (@tl frame) e2) = length e).
     { pose proof (Inv_nonempty e HI) as Hne.
